@@ -376,12 +376,19 @@ func parsePolicy(s string) (policy, error) {
 
 // ---------------------------------------------------------------- environment
 
-type stubNotifier struct{}
+// stubNotifier is the PeerNotifier handed to netsync; it records what netsync announces.
+type stubNotifier struct {
+	announced []chainhash.Hash
+}
 
-func (stubNotifier) AnnounceNewTransactions([]*mempool.TxDesc)            {}
-func (stubNotifier) UpdatePeerHeights(*chainhash.Hash, int32, *peer.Peer) {}
-func (stubNotifier) RelayInventory(*wire.InvVect, interface{})            {}
-func (stubNotifier) TransactionConfirmed(*btcutil.Tx)                     {}
+func (n *stubNotifier) AnnounceNewTransactions(l []*mempool.TxDesc) {
+	for _, d := range l {
+		n.announced = append(n.announced, *d.Tx.Hash())
+	}
+}
+func (*stubNotifier) UpdatePeerHeights(*chainhash.Hash, int32, *peer.Peer) {}
+func (*stubNotifier) RelayInventory(*wire.InvVect, interface{})            {}
+func (*stubNotifier) TransactionConfirmed(*btcutil.Tx)                     {}
 
 type env struct {
 	dir     string
@@ -389,6 +396,7 @@ type env struct {
 	params  *chaincfg.Params
 	chain   *blockchain.BlockChain
 	pool    *mempool.TxPool
+	note    *stubNotifier
 	onEvent func(kind byte) // called after netsync's handler for every connect / disconnect notification
 	lastTs  int64           // relative timestamp of the newest block built
 }
@@ -415,7 +423,7 @@ func newEnv(pol policy, maturity int) (*env, error) {
 	if err != nil {
 		return nil, err
 	}
-	e := &env{dir: dir, params: synthParams(maturity)}
+	e := &env{dir: dir, params: synthParams(maturity), note: &stubNotifier{}}
 	e.db, err = database.Create("ffldb", dir, e.params.Net)
 	if err != nil {
 		os.RemoveAll(dir)
@@ -459,7 +467,7 @@ func newEnv(pol policy, maturity int) (*env, error) {
 	})
 	// the REAL notification handler: netsync.New subscribes it to the chain
 	_, err = netsync.New(&netsync.Config{
-		PeerNotifier: stubNotifier{}, Chain: e.chain, TxMemPool: e.pool, ChainParams: e.params,
+		PeerNotifier: e.note, Chain: e.chain, TxMemPool: e.pool, ChainParams: e.params,
 		DisableCheckpoints: true, MaxPeers: 8,
 	})
 	if err != nil {
